@@ -18,6 +18,7 @@ pub fn extra_scenarios() -> Vec<Scenario> {
         Scenario::FragTwin(2),
         Scenario::FragTwin(3),
         Scenario::FragTwin(4),
+        Scenario::FragTwin(5),
         Scenario::FaultEnum(0),
         Scenario::FaultEnum(1),
         Scenario::Table,
@@ -132,13 +133,17 @@ pub fn cfg_for(scn: Scenario, t: &mut Tape, extra: u64) -> RunCfg {
                 c.p_withhold_ack = 0;
                 c.p_dup_inbound = 0;
             }
-            if k == 0 || k == 2 || k == 3 || k == 4 {
+            if k == 5 {
+                // the application gives up inside a packet and reconnects: no keep-alive
+                c.keepalive_s = 0;
+            }
+            if k == 0 || k == 2 || k == 3 || k == 4 || k == 5 {
                 c.p_partial_write = 0;
                 c.p_frag_read = 0;
                 c.client_id = "c".into();
                 c.will = None;
                 c.auth = None;
-                c.rx_len = if k == 3 { 20000 } else { 64 };
+                c.rx_len = if k == 3 || k == 5 { 20000 } else { 64 };
                 c.tx_len = 256;
             }
             c
@@ -229,6 +234,7 @@ pub fn run_scenario(scn: Scenario, extra: u64) {
         Scenario::FragTwin(2) => frag_enum(extra, true),
         Scenario::FragTwin(3) => frag_long(extra),
         Scenario::FragTwin(4) => frag_loss(extra),
+        Scenario::FragTwin(5) => frag_giveup(extra),
         Scenario::FragTwin(_) => frag_twin(),
         Scenario::FaultEnum(k) => crate::scen2::fault_enum(k, extra),
         Scenario::Table => crate::scen2::table(extra),
@@ -848,6 +854,73 @@ fn long_stream(i: u64) -> Vec<u8> {
     // something short behind it: swallowed if the length of the first packet is misjudged
     v.extend([0x30, 0x05, 0x00, 0x01, b'c', 0x00, b'z', 0xD0, 0x00]);
     v
+}
+
+/// C15: the inbound stream arrives in two pieces 300 ms apart, the application's poll times out
+/// after 100 ms - with only the first piece read, possibly a single header byte - and the
+/// application drops the connection and connects again. What was half read on the first
+/// connection must not reach into the second: `connect()` has the same result as in the run in
+/// which the stream arrived in one piece, and no valid packet is rejected.
+fn frag_giveup(extra: u64) {
+    let idx = extra / 8;
+    let stream: Vec<u8> = if idx < 8 { STREAMS[idx as usize].to_vec() } else { long_stream(idx - 8) };
+    let cut = (extra % 8) as usize;
+    let once = |pieces: bool| -> TwinObs {
+        with(|w| {
+            w.twin_mode = true;
+            w.sched = Some(Tape::replay(Vec::new(), 0));
+            w.script_start_pos = w.tape.pos;
+            if pieces && cut + 1 < stream.len() {
+                w.raw_pieces_after_connack = Some(vec![stream[..cut + 1].to_vec(), stream[cut + 1..].to_vec()]);
+            } else {
+                w.raw_after_connack = Some(stream.clone());
+            }
+        });
+        let cfg = with(|w| w.cfg.clone());
+        with_session(&cfg, |s| {
+            if let ConnectOutcome::Up(mut conn) = do_connect(s, false) {
+                let opts = ExecOpts { cancellable: true, idle_cancel: true, budget_us: Some(100 * clock::US_PER_MS), timer_is_idle: false };
+                for _ in 0..40 {
+                    let r = do_wait(&mut conn, Wait::Poll, Some(opts));
+                    if r.is_fatal() || r == Res::Cancelled {
+                        break;
+                    }
+                }
+                with(|w| close_conn(w, "frag: the application gives up and drops the connection"));
+                drop(conn);
+            }
+            with(|w| w.raw_after_connack = Some(stream.clone()));
+            if let ConnectOutcome::Up(mut conn) = do_connect(s, false) {
+                let opts = ExecOpts { cancellable: true, idle_cancel: true, budget_us: None, timer_is_idle: true };
+                for _ in 0..40 {
+                    let r = do_wait(&mut conn, Wait::Poll, Some(opts));
+                    if r.is_fatal() || r == Res::Cancelled {
+                        break;
+                    }
+                }
+                with(|w| close_conn(w, "frag: end"));
+            }
+        });
+        with(|w| observe(w))
+    };
+    let base = once(false);
+    let vals = with(|w| w.tape.vals.clone());
+    let first = second_world(vals, None);
+    let twin = once(true);
+    absorb(first);
+    with(|w| {
+        w.probe("twin_fragmented");
+        w.probe("gave_up_inside_a_packet_then_reconnected");
+        let connects = |o: &TwinObs| -> Vec<String> { o.results.iter().filter(|r| r.starts_with("connect:")).cloned().collect() };
+        let fatal = |o: &TwinObs| o.results.iter().filter(|r| r.ends_with("InvalidPacket") || r.contains("Transport")).count();
+        if connects(&base) != connects(&twin) || fatal(&base) != fatal(&twin) {
+            w.violate(
+                "C15",
+                "results-differ/reconnect-after-giving-up-inside-a-packet".into(),
+                format!("stream in one piece: {:?}; first piece of {} byte(s), application timeout, reconnect: {:?}", base.results, cut + 1, twin.results),
+            );
+        }
+    });
 }
 
 /// C15: long packets in pieces with time gaps, the read interrupted between the pieces.
